@@ -143,6 +143,16 @@ func newBundle(locale string, file po.File) (*bundle, error) {
 		if id == 0 {
 			return nil, fmt.Errorf("no id found in message: %#v", msg)
 		}
+		// an entry without a translation (the extractor writes them that way, and
+		// so does msgmerge for new messages) is a message that is not translated
+		// yet: it is left out, and renders as its source text.
+		var translated = false
+		for _, str := range msg.Str {
+			translated = translated || str != ""
+		}
+		if !translated {
+			continue
+		}
 		msgs[id] = newMessage(id, varName, msg.Str)
 	}
 	return &bundle{msgs, locale, pluralize}, nil
